@@ -89,8 +89,29 @@ def rule_no_host_recursion_for_script_calls(ctx, rep, rid: str) -> None:
             rep.ok(rid, key, {"handler": loc, "helpers": [h.qual for h in helpers]})
 
 
-def _has_depth_guard(f: Func) -> Optional[str]:
-    """An `if <depth-like> > <bound>: raise <JSError family>` in f. Returns description."""
+def _has_depth_guard(f: Func, ctx=None, _seen=None) -> Optional[str]:
+    """An `if <depth-like> > <bound>: raise <JSError family>` in f, or in a method f calls unconditionally at the
+    top level of its body (a shared `enter one more host level` helper). Returns description."""
+    if ctx is not None and f.cls is not None:
+        _seen = _seen or set()
+        if id(f) not in _seen:
+            _seen.add(id(f))
+            for st in walk_no_nested(f.node):
+                if isinstance(st, ast.Expr) and isinstance(st.value, ast.Call) and isinstance(st.value.func, ast.Attribute) and norm(st.value.func.value) == "self":
+                    # not under an `if`/loop of f: only try/with blocks may enclose it
+                    p = getattr(st, "_parent", None)
+                    cond = False
+                    while p is not None and p is not f.node:
+                        if isinstance(p, (ast.If, ast.For, ast.While)) and not (isinstance(p, ast.If) and "isinstance" in norm(p.test)):
+                            cond = True
+                        p = getattr(p, "_parent", None)
+                    if cond:
+                        continue
+                    h = ctx.tree.find_method(f.cls, st.value.func.attr)
+                    if h is not None and h is not f:
+                        g = _has_depth_guard(h, None)
+                        if g:
+                            return f"{h.name}: {g}"
     for n in f.own_nodes():
         if isinstance(n, ast.If) and isinstance(n.test, ast.Compare) and len(n.test.ops) == 1 and isinstance(n.test.ops[0], (ast.Gt, ast.GtE)):
             left = norm(n.test.left)
@@ -112,11 +133,11 @@ def rule_host_reentry_guarded(ctx, rep, rid: str) -> None:
             continue
         # direct script-reachable callers of the loop function
         callers = sorted({cs.func.qual: cs.func for cs in cg.sites if any(t is f for t in cs.targets) and id(cs.func) in disp_reach and cs.func is not f}.items())
-        g = _has_depth_guard(f)
+        g = _has_depth_guard(f, ctx)
         if g:
             rep.ok(rid, f"{f.qual}:reentrant", {"guard": g})
             continue
-        unguarded = [qn for qn, caller in callers if not _has_depth_guard(caller)]
+        unguarded = [qn for qn, caller in callers if not _has_depth_guard(caller, ctx)]
         key = f"{f.qual}:reentrant"
         if not unguarded:
             rep.ok(rid, key, {"guarded_callers": [qn for qn, _ in callers]})
